@@ -3,17 +3,20 @@ from __future__ import annotations
 
 import random
 
+from lib import model
 from lib.framework import Prop, canon
+from oracle import cst as cstmod
 from oracle import rfc4512
 from props.schema_common import KINDS, PARSE_CMD, U, parse_impl, to_list
 
+CST_CMD = {"object_class": 330, "attribute_type": 331, "dit_content_rule": 332}
 JUNK = list(" ()'$\\{}-_X.") + ["NAME", "DESC", "X-", "  ", "\n", "\t", "é", "''", "\\27", "\\5c", "MUST", "'"]
 
 
 class C17(Prop):
     id = "C17"
     prop_file = "Props/C17"
-    level = "other"
+    level = "proof"
     quick_n = 2500
     thorough_n = 60000
     case_timeout = 20.0
@@ -98,6 +101,61 @@ class C17(Prop):
         if canon(to_list(c["kind"], ref)) != canon(want):
             return f"harness error: reference parser disagrees with the generator on {c['text']!r}"
         return None
+
+    def extra_checks(self, tier, seed, ctx):
+        """The grammar theorems quantify over concrete syntax trees (a value plus every spacing / list-form / escape
+        choice).  Random trees are rendered twice - by the Coq definitions (extracted) and by oracle/cst.py - and the
+        sentence is parsed by the implementation and by the independent reference parser: the Coq grammar must produce the
+        same text, accept the tree (executable hypotheses of the theorem), and denote the value the tree was made from."""
+        if not ctx["build"].ok:
+            return []
+        rng = random.Random(seed ^ 0xC57)
+        n = 600 if tier == "quick" else 12000
+        cases = []
+        for _ in range(n):
+            kind = rng.choice(KINDS)
+            v = rfc4512.g_value(rng, kind)
+            tree = cstmod.make(rng, kind, v, ad_syntax=(kind == "attribute_type" and rng.random() < 0.3))
+            cases.append({"kind": kind, "v": v, "tree": tree, "text": cstmod.render(kind, tree), "mode": "tree"})
+        ans = model.run_batch([[CST_CMD[c["kind"]], c["tree"]] for c in cases])
+        out = []
+        self.trees = 0
+        for c, a in zip(cases, ans):
+            what = self.judge_tree(c, a)
+            if what:
+                out.append((c, what))
+                if len(out) >= 5:
+                    break
+            else:
+                self.trees += 1
+        return out
+
+    def judge_tree(self, c, a):
+        if not isinstance(a, list) or len(a) != 4:
+            return f"the model driver rejected a concrete syntax tree ({a!r})"
+        text, wf, den, parsed = a
+        want = canon(to_list(c["kind"], c["v"]))
+        if "".join(chr(x) for x in text) != c["text"]:
+            return "the Coq grammar and the independent renderer write different sentences for the same tree"
+        if wf != 1:
+            return "the hypotheses of the C17 grammar theorem do not cover this sentence"
+        if canon(den) != want:
+            return "the Coq grammar denotes a different value than the tree was made from"
+        if canon(parsed) != canon([0, den]):
+            return "the model parser does not return the denotation on a sentence (theorem instance fails by computation)"
+        try:
+            ref = rfc4512.parse(c["kind"], c["text"])
+        except rfc4512.NotASentence as e:
+            return f"the independent reference parser rejects a sentence of the Coq grammar ({e})"
+        if canon(to_list(c["kind"], ref)) != want:
+            return "the independent reference parser reads a different value from a sentence of the Coq grammar"
+        got = parse_impl(c["kind"], c["text"])
+        if canon(got) != canon([0, to_list(c["kind"], c["v"])]):
+            return f"from_string does not return what the grammar denotes for {c['text']!r}"
+        return None
+
+    def extra_evidence(self, ctx):
+        return {"syntax_trees_checked_against_theorem_hypotheses_and_reference_parser": getattr(self, "trees", 0)}
 
     def classify(self, c):
         return c["kind"] + "-" + c["mode"]
